@@ -194,8 +194,8 @@ pub fn corr(run: &mut Run) {
                 cross-checked node by node against SimpleEvaluator. Non-trivial: at least one private input not owned by the observer."
         .to_owned();
     let mut rng = run.rng("views");
-    let n_prog = run.tier.scale(500, 4000);
-    let max_tape = run.tier.scale(13, 18) as usize;
+    let n_prog = run.tier.scale(500, 2500);
+    let max_tape = run.tier.scale(13, 16) as usize;
     let mut done = 0;
     let mut attempts = 0;
     while done < n_prog && attempts < n_prog * 20 {
@@ -497,9 +497,15 @@ pub struct Certificate {
     /// (message node, pivot tape variable), LAST message first
     pub pivoted: Vec<(usize, usize)>,
     pub computable: Vec<usize>,
+    /// reveal messages (output recipients only): unmasked messages claimed to be determined by the output and the rest of the view
+    pub reveals: Vec<usize>,
 }
 
 fn discipline_for(ir: &[IrNode], ins: &[IOStatus], p: usize) -> std::result::Result<Certificate, String> {
+    discipline_with(ir, ins, p, false)
+}
+
+fn discipline_with(ir: &[IrNode], ins: &[IOStatus], p: usize, recipient: bool) -> std::result::Result<Certificate, String> {
     let c = cones(ir, ins, p).ok_or_else(|| "PRF key is not a Random/NOP chain".to_owned())?;
     // messages delivered to p
     let mut msgs: Vec<usize> = vec![];
@@ -509,6 +515,7 @@ fn discipline_for(ir: &[IrNode], ins: &[IOStatus], p: usize) -> std::result::Res
         }
     }
     let mut computable: Vec<usize> = vec![];
+    let mut reveals: Vec<usize> = vec![];
     // (message, candidate pivots)
     let mut open: Vec<(usize, Vec<usize>)> = vec![];
     for m in msgs {
@@ -533,6 +540,11 @@ fn discipline_for(ir: &[IrNode], ins: &[IOStatus], p: usize) -> std::result::Res
                 }
             }
         }
+        if recipient && cands.is_empty() {
+            // no mask at all: can only be justified as a reveal message (the Lean checker decides)
+            reveals.push(m);
+            continue;
+        }
         open.push((m, cands));
     }
     let mut pivoted: Vec<(usize, usize)> = vec![];
@@ -552,13 +564,20 @@ fn discipline_for(ir: &[IrNode], ins: &[IOStatus], p: usize) -> std::result::Res
                 pivoted.push((open[i].0, v));
                 open.remove(i);
             }
+            None if recipient => {
+                // stuck: the latest remaining message is claimed to be a reveal message (its mask is shared
+                // with another message, as for the missing output share z + (f − f')); Lean decides
+                let (i, _) = open.iter().enumerate().max_by_key(|(_, (m, _))| *m).unwrap();
+                reveals.push(open[i].0);
+                open.remove(i);
+            }
             None => {
                 let (m, cands) = &open[0];
                 return Err(format!("no admissible pivot: e.g. message node {} ({}) has candidate masks {:?}, unknown masks in its cone {:?}, depends on hidden input: {}", m, op_tag(&ir[*m].op), cands, c.vars[*m], c.hidden[*m]));
             }
         }
     }
-    Ok(Certificate { pivoted, computable })
+    Ok(Certificate { pivoted, computable, reveals })
 }
 
 /// the compiled graph as `List CCV.Mask.Node`, classified for observer p
@@ -674,7 +693,7 @@ pub fn gen(run: &mut Run, out_dir: &str) {
     let n_graphs = run.tier.scale(30, 120);
     let max_nodes = run.tier.scale(160, 400);
     let chunk = 5;
-    let header = "import CCV.Model.Mask\nset_option maxRecDepth 1000000\nnamespace CCV.Generated.C03\nopen CCV.Mask\n\n";
+    let header = "import CCV.Model.MaskRev\nset_option maxRecDepth 1000000\nnamespace CCV.Generated.C03\nopen CCV.Mask\n\n";
     let mut files: Vec<String> = vec![];
     let mut cur = String::new();
     let mut in_cur = 0;
@@ -705,23 +724,21 @@ pub fn gen(run: &mut Run, out_dir: &str) {
             continue;
         }
         for p in 0..3usize {
-            if outs.iter().any(|o| *o == IOStatus::Party(p as u64)) {
-                continue;
-            }
+            let recipient = outs.iter().any(|o| *o == IOStatus::Party(p as u64));
             if !ins.iter().any(|s| matches!(s, IOStatus::Party(o) if *o as usize != p)) {
                 continue;
             }
             // only families for which the discipline is known to be provable are in the corpus
             if fam.name != "arith" {
-                if discipline_for(&ir, &ins, p).is_err() {
+                if recipient || discipline_for(&ir, &ins, p).is_err() {
                     continue;
                 }
             }
-            let cert = match discipline_for(&ir, &ins, p) {
+            let cert = match discipline_with(&ir, &ins, p, recipient) {
                 Ok(c) => c,
                 // arithmetic family: export anyway with a best-effort (empty) certificate so that the
                 // obligation fails visibly
-                Err(_) => Certificate { pivoted: vec![], computable: vec![] },
+                Err(_) => Certificate { pivoted: vec![], computable: vec![], reveals: vec![] },
             };
             let nodes = match export_mask(&ir, &ins, p) {
                 Some(s) => s,
@@ -729,18 +746,23 @@ pub fn gen(run: &mut Run, out_dir: &str) {
             };
             // every message delivered to p must be covered by the certificate
             let delivered: Vec<usize> = (0..ir.len()).filter(|i| ir[*i].sends.iter().any(|(_, r)| *r as usize == p)).collect();
-            let covered = delivered.iter().all(|m| cert.computable.contains(m) || cert.pivoted.iter().any(|(x, _)| x == m));
+            let covered = delivered.iter().all(|m| cert.computable.contains(m) || cert.reveals.contains(m) || cert.pivoted.iter().any(|(x, _)| x == m));
             let name = format!("v{}", k);
             let cfg = config_name(&ins, &outs, mode);
-            writeln!(cur, "/-- {} [{}] {} ; observer party {} ; {} nodes ; messages delivered at nodes {:?} -/", fam.name, fam.descr.replace("-/", ""), cfg, p, ir.len(), delivered).unwrap();
+            writeln!(cur, "/-- {} [{}] {} ; observer party {} ({}) ; {} nodes ; messages delivered at nodes {:?} -/", fam.name, fam.descr.replace("-/", ""), cfg, p, if recipient { "output recipient" } else { "not a recipient" }, ir.len(), delivered).unwrap();
             writeln!(cur, "def {} : List Node := [\n{}]", name, nodes).unwrap();
             writeln!(cur, "def {}_cert : Cert := [{}]", name, cert.pivoted.iter().map(|(m, v)| format!("({}, {})", m, v)).collect::<Vec<_>>().join(", ")).unwrap();
             writeln!(cur, "def {}_comp : List Nat := [{}]", name, cert.computable.iter().map(|m| m.to_string()).collect::<Vec<_>>().join(", ")).unwrap();
             writeln!(cur, "def {}_delivered : List Nat := [{}]", name, delivered.iter().map(|m| m.to_string()).collect::<Vec<_>>().join(", ")).unwrap();
-            writeln!(cur, "theorem {}_ok : (discOk {} {}_cert && compOk {} {}_comp && {}_delivered.all (fun m => {}_comp.contains m || {}_cert.any (fun c => c.1 == m))) = true := by decide +kernel\n", name, name, name, name, name, name, name, name).unwrap();
+            writeln!(cur, "def {}_revs : List Nat := [{}]", name, cert.reveals.iter().map(|m| m.to_string()).collect::<Vec<_>>().join(", ")).unwrap();
+            if recipient {
+                writeln!(cur, "theorem {}_ok : (discOk {} {}_cert && compOk {} {}_comp && revOk {} ({}_cert.map (·.1) ++ {}_comp) {} {}_revs && {}_delivered.all (fun m => {}_comp.contains m || {}_revs.contains m || {}_cert.any (fun c => c.1 == m))) = true := by decide +kernel\n", name, name, name, name, name, name, name, name, _out, name, name, name, name, name).unwrap();
+            } else {
+                writeln!(cur, "theorem {}_ok : (discOk {} {}_cert && compOk {} {}_comp && {}_delivered.all (fun m => {}_comp.contains m || {}_cert.any (fun c => c.1 == m))) = true := by decide +kernel\n", name, name, name, name, name, name, name, name).unwrap();
+            }
             let _ = covered;
             obligations.push(serde_json::json!({"name": format!("CCV.Generated.C03.{}_ok", name),
-                "says": format!("mask discipline certificate accepted for observer {} of the compiled graph of {} [{}] {} ({} nodes; {} pivoted, {} computable messages; every delivered message covered)", p, fam.name, fam.descr, cfg, ir.len(), cert.pivoted.len(), cert.computable.len())}));
+                "says": format!("mask discipline certificate accepted for observer {} ({}) of the compiled graph of {} [{}] {} ({} nodes; {} pivoted, {} computable, {} reveal messages; every delivered message covered)", p, if recipient { "output recipient" } else { "non-recipient" }, fam.name, fam.descr, cfg, ir.len(), cert.pivoted.len(), cert.computable.len(), cert.reveals.len())}));
             run.count(&format!("gen:family:{}", fam.name));
             k += 1;
             in_cur += 1;
